@@ -151,3 +151,105 @@ def inp_lps(s, controls_text="", rules_text=""):
            " Trials 100", " Accuracy 0.00001", " Unbalanced Continue 10", " Pattern 1", " Demand Multiplier %.10g" % o["mult"], " Emitter Exponent 0.5",
            " Quality None mg/L", "[REPORT]", " Status No", " Summary No", "[END]"]
     return "\n".join(txt) + "\n"
+
+
+# ------------------------------------------------------------------------------------------------ unit systems (own table)
+GAL, FT, IN, PSI_M, HP_W = 3.785411784e-3, 0.3048, 0.0254, 0.3048 / 0.4333, 745.699872
+FLOW = {"CFS": FT ** 3, "GPM": GAL / 60.0, "MGD": 1e6 * GAL / 86400.0, "IMGD": 1e6 * 4.54609e-3 / 86400.0, "AFD": 43560.0 * FT ** 3 / 86400.0,
+        "LPS": 1e-3, "LPM": 1e-3 / 60.0, "MLD": 1e3 / 86400.0, "CMH": 1.0 / 3600.0, "CMD": 1.0 / 86400.0}
+US = ("CFS", "GPM", "MGD", "IMGD", "AFD")
+
+
+def factors(units):
+    """SI value of one file unit for: flow, length/elevation/head, pipe diameter, pressure, power"""
+    us = units in US
+    return {"flow": FLOW[units], "len": FT if us else 1.0, "diam": IN if us else 1e-3, "pres": PSI_M if us else 1.0,
+            "power": HP_W if us else 1000.0}
+
+
+def inp_units(s, units, controls_text="", rules_text=""):
+    """INP text of a vf.net spec in any of the ten EPANET flow units (hand-written emitter, own unit table)."""
+    f = factors(units)
+    o = s["opts"]
+    g = lambda x: "%.12g" % x
+    J, Rs, Ts, Pp, Pu, Va, Cu, Dm = [], [], [], [], [], [], [], []
+    ncurve = 0
+    for n in s["nodes"]:
+        if n["t"] == "junc":
+            ds = n["demands"] or [[0.0, None, None]]
+            J.append(" %s %s %s %s" % (n["n"], g(n["elev"] / f["len"]), g(ds[0][0] / f["flow"]), ds[0][1] or ""))
+            if len(ds) > 1:
+                for b, p, c in ds:
+                    Dm.append(" %s %s %s" % (n["n"], g(b / f["flow"]), p or ""))
+        elif n["t"] == "res":
+            Rs.append(" %s %s %s" % (n["n"], g(n["head"] / f["len"]), n.get("head_pat") or ""))
+        else:
+            vc = ""
+            if n.get("vcurve"):
+                ncurve += 1
+                vc = "vc%d" % ncurve
+                for lv, vol in n["vcurve"]:
+                    Cu.append(" %s %s %s" % (vc, g(lv / f["len"]), g(vol / f["len"] ** 3)))
+            Ts.append(" %s %s %s %s %s %s 0 %s" % (n["n"], g(n["elev"] / f["len"]), g(n["init"] / f["len"]), g(n["min"] / f["len"]),
+                                                   g(n["max"] / f["len"]), g(n["diam"] / f["len"]), vc))
+    status = []
+    for l in s["links"]:
+        if l["t"] == "pipe":
+            st = "CV" if l["cv"] else ("Closed" if l["status"] == "CLOSED" else "Open")
+            Pp.append(" %s %s %s %s %s %s %s %s" % (l["n"], l["a"], l["b"], g(l["L"] / f["len"]), g(l["D"] / f["diam"]), g(l["C"]), g(l["K"]), st))
+        elif l["t"] == "hpump":
+            ncurve += 1
+            cn = "hc%d" % ncurve
+            for q, h in l["curve"]:
+                Cu.append(" %s %s %s" % (cn, g(q / f["flow"]), g(h / f["len"])))
+            Pu.append(" %s %s %s HEAD %s" % (l["n"], l["a"], l["b"], cn))
+            if l["status"] == "CLOSED":
+                status.append(" %s Closed" % l["n"])
+        elif l["t"] == "ppump":
+            Pu.append(" %s %s %s POWER %s" % (l["n"], l["a"], l["b"], g(l["power"] / f["power"])))
+            if l["status"] == "CLOSED":
+                status.append(" %s Closed" % l["n"])
+        else:
+            setting = l["setting"] / (f["flow"] if l["t"] == "FCV" else (f["pres"] if l["t"] in ("PRV", "PSV", "PBV") else 1.0))
+            Va.append(" %s %s %s %s %s %s %s" % (l["n"], l["a"], l["b"], g(l["D"] / f["diam"]), l["t"], g(setting), g(l["K"])))
+            if l["status"] in ("CLOSED", "OPEN"):
+                status.append(" %s %s" % (l["n"], l["status"].capitalize()))
+    pats = [" %s %s" % (name, " ".join(g(m) for m in mult)) for name, mult in s["patterns"].items()]
+    ctr, rul = [], []
+    for i, c in enumerate(s["controls"]):
+        ltype = "LINK"
+        val = c["value"] if c.get("attr", "status") == "status" else g(c["value"])
+        if c.get("rule"):
+            if c["kind"] == "level":
+                cond = "TANK %s LEVEL %s %s" % (c["node"], {">": "ABOVE", "<": "BELOW"}[c["rel"]], g(c["thr"] / f["len"]))
+            elif c["kind"] == "pressure":
+                cond = "JUNCTION %s PRESSURE %s %s" % (c["node"], {">": "ABOVE", "<": "BELOW"}[c["rel"]], g(c["thr"] / f["pres"]))
+            elif c["kind"] == "time":
+                cond = "SYSTEM TIME %s %s" % (c["rel"], hms(c["t"]))
+            else:
+                cond = "SYSTEM CLOCKTIME %s %s" % (c["rel"], clock(c["t"]))
+            r = "RULE r%d\nIF %s\nTHEN LINK %s STATUS IS %s" % (i, cond, c["link"], c["value"])
+            if "else_value" in c:
+                r += "\nELSE LINK %s STATUS IS %s" % (c["link"], c["else_value"])
+            rul.append(r + "\nPRIORITY %d\n" % c.get("prio", 3))
+        elif c["kind"] == "time":
+            ctr.append(" LINK %s %s AT TIME %s" % (c["link"], val, hms(c["t"])))
+        elif c["kind"] == "clock":
+            ctr.append(" LINK %s %s AT CLOCKTIME %s" % (c["link"], val, clock(c["t"])))
+        elif c["kind"] == "level":
+            ctr.append(" LINK %s %s IF NODE %s %s %s" % (c["link"], val, c["node"], {">": "ABOVE", "<": "BELOW"}[c["rel"]], g(c["thr"] / f["len"])))
+        else:
+            ctr.append(" LINK %s %s IF NODE %s %s %s" % (c["link"], val, c["node"], {">": "ABOVE", "<": "BELOW"}[c["rel"]], g(c["thr"] / f["pres"])))
+    rep = o["rep"] if o["rep"] != "ALL" else o["hyd"]
+    opt = [" Units %s" % units, " Headloss H-W", " Specific Gravity 1", " Viscosity 1", " Trials 200", " Accuracy 0.000001", " Unbalanced Continue 10",
+           " Pattern 1", " Demand Multiplier %s" % g(o["mult"]), " Emitter Exponent 0.5", " Quality None mg/L"]
+    if o["dm"] == "PDD":
+        opt += [" Demand Model PDA", " Minimum Pressure %s" % g(o["pmin"] / f["pres"]), " Required Pressure %s" % g(o["preq"] / f["pres"]),
+                " Pressure Exponent %s" % g(o["pexp"])]
+    txt = ["[TITLE]", "verif", "[JUNCTIONS]"] + J + ["[RESERVOIRS]"] + Rs + ["[TANKS]"] + Ts + ["[PIPES]"] + Pp + ["[PUMPS]"] + Pu + \
+          ["[VALVES]"] + Va + ["[DEMANDS]"] + Dm + ["[STATUS]"] + status + ["[PATTERNS]"] + pats + ["[CURVES]"] + Cu + \
+          ["[CONTROLS]"] + ctr + ["[RULES]"] + rul + ["[TIMES]",
+           " Duration %s" % hms(o["dur"]), " Hydraulic Timestep %s" % hms(o["hyd"]), " Quality Timestep 0:05", " Pattern Timestep %s" % hms(o["pat"]),
+           " Pattern Start %s" % hms(o["pstart"]), " Report Timestep %s" % hms(rep), " Report Start 0:00", " Start ClockTime %s" % clock(o["clock"]),
+           " Rule Timestep %s" % hms(o["rule"]), " Statistic NONE", "[OPTIONS]"] + opt + ["[REPORT]", " Status No", " Summary No", "[END]"]
+    return "\n".join(txt) + "\n"
